@@ -14,8 +14,23 @@ import os
 import shutil
 
 from ..core.prop import Prop
+from ..gen import pipelines as PL
+from ..gen import steps as ST
 from ..gen import tables as T
 from . import cpcommon
+
+# built-in steps that may sit upstream of the checkpoints ('g' links): everything that is not an observer, a source or a user callable
+G_KINDS = ['add_computed_field', 'add_field', 'concatenate', 'dedup', 'delete_fields', 'delete_resource', 'duplicate', 'filter_rows', 'find_replace', 'join',
+           'join_with_self', 'rename_fields', 'select_fields', 'set_primary_key', 'set_type', 'sort_rows', 'unpivot', 'update_package', 'update_resource',
+           'update_schema', 'validate']
+
+
+def _expand_g(payload, sub):
+    """draw 1-3 built-in steps against the real descriptor of the sources (throw-away process)"""
+    import random
+    rng = random.Random(payload['gseed'])
+    sc = PL.gen_pipeline(rng, payload['tables'], payload['n'], exclude=[k for k in ST.GENS if k not in G_KINDS])
+    return sc['steps']
 
 TZS = ['UTC', 'America/New_York', 'Asia/Kolkata', 'Pacific/Chatham']
 OFFSETS = [0, 3600, 19800, 45900, -18000, -12600, -43200, 50400, -60, 60, -3600]
@@ -131,6 +146,8 @@ def _history(payload, sub):
             links = [_load_source(spec, [Restartable(ti, T.rows_of(t)) for ti, t in enumerate(spec['tables'])])]
         else:
             links = [Src(ti, T.rows_of(t)) for ti, t in enumerate(spec['tables'])]
+        for sp in spec.get('gsteps') or []:
+            links.extend(ST.build(sp, {'calls': {}}))
         for ln in spec['links']:
             if ln.startswith('cp:'):
                 links.append(checkpoint(ln[3:]))
@@ -186,15 +203,30 @@ def _reference(payload, sub):
         links = [_load_source(spec, [iter(T.rows_of(t)) for t in spec['tables']])]
     else:
         links = [T.rows_of(t) for t in spec['tables']]
+    for sp in spec.get('gsteps') or []:
+        links.extend(ST.build(sp, {'calls': {}}))
+    steps = {}
+
+    def counting(name, mut):
+        steps[name] = 0
+
+        def step(rows):
+            for row in rows:
+                steps[name] += 1
+                yield row
+        return [step] if not mut else [_mut(name), step]
     for ln in spec['links']:
-        if ln.startswith('m'):
-            links.append(add_field(ln, 'string'))
-            links.append(_mut(ln))
-        elif ln.startswith('v'):
+        if ln.startswith('cp:'):
+            continue
+        if ln.startswith('v'):
             from dataflows import validate
             links.append(validate())
+            continue
+        if ln.startswith('m'):
+            links.append(add_field(ln, 'string'))
+        links.extend(counting(ln, ln.startswith('m')))
     rows, dp, _ = Flow(*links).results()
-    return {'rows': jsonable(rows), 'dp': jsonable(dp.descriptor)}
+    return {'rows': jsonable(rows), 'dp': jsonable(dp.descriptor), 'steps': steps}
 
 
 class C07(Prop):
@@ -212,7 +244,7 @@ class C07(Prop):
                    'same-object configuration uses re-iterable sources and stateless steps, so only the checkpoint machinery carries state between runs']
     REAL_VS_STUB = {'real': ['dataflows Flow / checkpoint / stream / unstream / extended_json', 'the file system'], 'stub': ['process environment: TZ set per run; fork per RUN in the fresh configuration']}
     PROBES = ['negative-utc-offset', 'sub-hour-offset', 'duration-value', 'time-value', 'nested-object', 'high-precision-decimal', 'tz-changed-between-runs', 'same-object-config',
-              'fresh-config', 'delete-middle-checkpoint', 'resume-after-delete-all', 'three-checkpoints', 'empty-resource', 'mutating-step-after-checkpoint', 'year-below-1000', 'zero-column-rows', 'sources-through-load', 'same-object-rerun-of-load', 'validate-step-in-the-chain', 'nested-checkpoint-names', 'same-zone-name-different-offsets']
+              'fresh-config', 'delete-middle-checkpoint', 'resume-after-delete-all', 'three-checkpoints', 'empty-resource', 'mutating-step-after-checkpoint', 'year-below-1000', 'zero-column-rows', 'sources-through-load', 'same-object-rerun-of-load', 'validate-step-in-the-chain', 'nested-checkpoint-names', 'same-zone-name-different-offsets', 'built-in-steps-upstream-of-the-checkpoints'] + ['g:' + k for k in G_KINDS]
     TIERS = {'quick': dict(runs=500, wall=100, run_wall=300),
              'thorough': dict(runs=12000, wall=1700, run_wall=600)}
     SHRINK_FROZEN = ('fields',)
@@ -264,7 +296,11 @@ class C07(Prop):
         spec = {'tables': tabs, 'links': links}
         if rng.random() < 0.3:
             spec['src'] = 'load'          # the sources arrive through one load((descriptor, iterators)) step instead of plain iterables
-        return {'spec': spec, 'ops': ops, 'config': config}
+        sc = {'spec': spec, 'ops': ops, 'config': config}
+        if rng.random() < 0.35 and all(t['fields'] for t in tabs):
+            # 1-3 built-in steps upstream of everything (drawn against the real descriptor in execute): do they keep state between runs?
+            sc['gen'] = {'gseed': rng.randrange(2**62), 'n': rng.choice([1, 2, 3])}
+        return sc
 
     def execute(self, sc, ctx):
         spec = sc['spec']
@@ -274,6 +310,17 @@ class C07(Prop):
         work = os.path.join(ctx.scratch, 'work')
         os.makedirs(work)
         os.chdir(work)
+        if sc.get('gen') and 'gsteps' not in spec and spec.get('src') != 'load':
+            r = ctx.subrun(_expand_g, {'tables': spec['tables'], 'gseed': sc['gen']['gseed'], 'n': sc['gen']['n']})
+            if r['status'] != 'ok':
+                ctx.discard('generation failed: %s' % json.dumps(r.get('exc'))[:300])
+            spec = dict(spec, gsteps=r['value'])
+            sc = dict(sc, spec=spec)
+            ctx.extra['expanded'] = sc
+        if spec.get('gsteps'):
+            ctx.probe('built-in-steps-upstream-of-the-checkpoints')
+            for sp in spec['gsteps']:
+                ctx.probe('g:' + sp['step'])
         ref = ctx.subrun(_reference, {'spec': spec})
         if ref['status'] != 'ok':
             ctx.discard('checkpoint-free reference raises: %s' % json.dumps(ref.get('exc'))[:300])
@@ -347,7 +394,7 @@ class C07(Prop):
                     cut = i
                     break
             exp_src = [0] * len(total) if cut >= 0 else list(total)
-            exp_steps = {ln: (sum(total) if i > cut else 0) for i, ln in enumerate(links) if not ln.startswith('cp:') and not ln.startswith('v')}
+            exp_steps = {ln: (ref['steps'][ln] if i > cut else 0) for i, ln in enumerate(links) if not ln.startswith('cp:') and not ln.startswith('v')}
             if out['src'] != exp_src or out['steps'] != exp_steps:
                 under = sum(out['src']) < sum(exp_src) or any(out['steps'][k] < exp_steps[k] for k in exp_steps)
                 ctx.violation('not-recomputed-after-delete' if under else 'upstream-executed', 'counters',
@@ -359,6 +406,12 @@ class C07(Prop):
             types = sorted(set(f['type'] for t in spec['tables'] for f in t['fields']))
             ctx.nt(sc.get('config'), links, [o['op'] for o in ops], types)
         ctx.sample = {'config': sc.get('config'), 'links': links, 'ops': ops, 'rows': total, 'types': [[f['type'] for f in t['fields']] for t in spec['tables']]}
+
+    def focus(self, sc, rec):
+        ex = rec.get('extra') or {}
+        if sc.get('gen') and 'gsteps' not in sc['spec'] and ex.get('expanded'):
+            return ex['expanded']
+        return None
 
     def _probes(self, sc, ctx):
         spec = sc['spec']
